@@ -1,6 +1,6 @@
 #!/usr/bin/env python3
 """C08 (reply classification), C09 (capability gate), C12 (hello / negotiation) - Wire.tla."""
-import json, os, time, random, itertools
+import json, os, time, subprocess, random, itertools
 from vlib import *
 
 TRACE_CFG = """SPECIFICATION TSpec
@@ -199,7 +199,24 @@ def check_c14(tier, only_cases=None):
     cpath = os.path.join(wd, "cases.json")
     json.dump({"cases": cases}, open(cpath, "w"))
     trace = os.path.join(wd, "c14.trace")
-    run_harness("wire", ["c14", cpath], trace)
+    # the code under test may take the whole process down (stack overflow, abort): that is a result, not a tool
+    # error - the case without an output line is recorded as aborted and the run goes on behind it
+    done, aborted = 0, 0
+    with open(trace, "w") as tf:
+        while done < len(cases):
+            part = os.path.join(wd, f"c14.part{aborted}")
+            with open(part, "w") as o:
+                p = subprocess.run([os.path.join(BIN, "wire"), "c14", cpath, str(done)], stdout=o, stderr=subprocess.PIPE, text=True, timeout=3000)
+            lines = [l for l in open(part) if l.strip()]
+            tf.writelines(lines); done += len(lines)
+            if p.returncode == 0:
+                break
+            if p.returncode > 0 or aborted >= 20:
+                raise ToolError(f"harness wire c14 failed rc={p.returncode}: {p.stderr[-1500:]}")
+            if done < len(cases):
+                tf.write(json.dumps({"ev": "c14", "case": done, "c": cases[done], "gid": -1, "glen": 0, "panic": True,
+                                     "abort": f"the process was killed by signal {-p.returncode}: " + p.stderr.strip()[-160:]}) + "\n")
+                done += 1; aborted += 1
     stats, viols = validate_trace("WireTrace", trace, prop, f"{prop}-{tier}", TRACE_CFG, nchunks=8, independent=True)
     outcomes = {}
     for l in open(trace):
